@@ -133,7 +133,16 @@ func genStopPoints(rng *rand.Rand, seed int64) *Scenario {
 				d = post + 1
 			}
 		}
-		sc.Triggers = append(sc.Triggers, Trigger{Inst: v, Nth: nth, Phase: phase, Delay: d, Step: st})
+		tg := Trigger{Inst: v, Nth: nth, Phase: phase, Delay: d, Step: st}
+		if rng.Intn(4) == 0 {
+			// inside the critical section that raises the flag (first or second term) or writes the gauge 0: the call is
+			// parked on the election's mutex and runs as soon as the section ends - before the goroutines it spawned
+			tg.Phase, tg.Delay, tg.Nth = []string{"flag", "flag", "unflag"}[rng.Intn(3)], 0, 1+rng.Intn(2)
+			if rng.Intn(4) == 0 {
+				tg.Step = Step{Kind: "cancelctx", Inst: v}
+			}
+		}
+		sc.Triggers = append(sc.Triggers, tg)
 		at = startAt + 2*h
 	} else {
 		sc.Steps = append(sc.Steps, st)
@@ -202,6 +211,12 @@ func genConn(rng *rand.Rand, seed int64) *Scenario {
 		}
 	case 2: // a stop in the middle
 		sc.Steps = append(sc.Steps, Step{At: 2*h + time.Duration(rng.Int63n(int64(g+h))), Kind: []string{"stop", "stopctx"}[rng.Intn(2)], Inst: 1})
+		if rng.Intn(2) == 0 {
+			// … and a notification that arrives while that stop (or an earlier demotion) is inside its critical section:
+			// the library is in a metrics callback, holding its mutex, when the client's goroutine delivers it
+			sc.Triggers = append(sc.Triggers, Trigger{Inst: 1, Nth: 1, Phase: []string{"observe", "observe", "unflag", "flag"}[rng.Intn(4)],
+				Step: Step{Kind: []string{"disconnect", "disconnect", "reconnect"}[rng.Intn(3)], Inst: 1}})
+		}
 	}
 	sc.End = t + g + 3*h
 	return sc
@@ -223,6 +238,8 @@ func genFaults(rng *rand.Rand, seed int64) *Scenario {
 		if rng.Intn(4) == 0 {
 			is.Val = h + time.Duration(rng.Int63n(int64(2*h)))
 		}
+		// the health-check threshold is not the refresh-failure threshold (three, whatever the configuration says)
+		is.MaxFail = []int{0, 0, 1, 5, 10}[rng.Intn(5)]
 		sc.Insts = append(sc.Insts, is)
 		sc.Steps = append(sc.Steps, Step{At: time.Duration(i-1) * 30 * ms, Kind: "start", Inst: i})
 	}
@@ -292,6 +309,16 @@ func genHealth(rng *rand.Rand, seed int64) *Scenario {
 	if rng.Intn(3) == 0 {
 		is.Promote = "block"
 	}
+	if rng.Intn(3) == 0 {
+		// isolated transient failures of the refresh itself on some ticks (the leader's k-th store operation is its k-th
+		// refresh): the health count and the refresh-failure count are separate
+		sc.Plans = map[string]OpPlan{}
+		sc.Responsive = false
+		for j := 0; j < 1+rng.Intn(4); j++ {
+			k := 1 + rng.Intn(ticks)
+			sc.Plans[fmt.Sprintf("1:%d", k)] = OpPlan{Pre: 2 * ms, Post: 2 * ms, Fault: "err", Err: []string{"timeout", "noresponders", "other"}[rng.Intn(3)]}
+		}
+	}
 	sc.Insts = append(sc.Insts, is)
 	sc.Steps = append(sc.Steps, Step{At: 0, Kind: "start", Inst: 1})
 	if rng.Intn(2) == 0 {
@@ -318,6 +345,10 @@ var tamperValues = []string{
 	`{"token":"$TOK1"}`, `{"id":null,"token":"$TOK1"}`, `{"id":7,"token":"$TOK1"}`, `{"id":"","token":"$TOK1"}`, `{"id":{},"token":"$TOK1"}`,
 	`{"id":"i2","token":"$TOK1"}`, `{"id":"i1","token":"$TOK1","priority":"x"}`, `{"id":"i1","token":"$TOK1"}`, `{"ID":"i1","Token":"$TOK1"}`,
 	`{"id":"i1","token":["$TOK1"]}`,
+	// a well-formed object naming the leader and its token, followed by more bytes: not a JSON document
+	`{"id":"i1","token":"$TOK1"}xyz`, `{"id":"i1","token":"$TOK1"}{"id":"i2","token":"t"}`, `{"id":"i1","token":"$TOK1"} {"id":"i1"`,
+	`{"id":"i1","token":"$TOK1"},`, `[{"id":"i1","token":"$TOK1"}]`, ` {"id":"i1","token":"$TOK1"} `, `{"id":"i1","token":"$TOK1"}` + "\x00",
+	`{"id":"i1","token":"$TOK1","priority":1e400}`, `{"id":"i1","token":"$TOK1","priority":1.5}`,
 }
 
 // genTamper: an outside party rewrites or deletes the record at arbitrary moments with arbitrary
